@@ -526,6 +526,7 @@ func (r *Route) current() ([]netip.Prefix, error) {
 	}
 
 	var prefixes []netip.Prefix
+	seen := make(map[netip.Prefix]struct{})
 outer:
 	for _, rt := range routes {
 		// Skip IPv4 or /128s on loopbacks.
@@ -533,13 +534,21 @@ outer:
 			continue
 		}
 
-		// Prefix covered by larger prefix which is not equal to itself.
+		// Only add each prefix once.
+		if _, ok := seen[rt.Prefix]; ok {
+			continue
+		}
+
+		// Prefix covered by a different, shorter prefix. Comparing lengths
+		// matters when both share a base address such as 2001:db8::/48 and
+		// 2001:db8::/64: only the longer one is covered.
 		for _, rt2 := range routes {
-			if rt.Prefix != rt2.Prefix && rt2.Prefix.Contains(rt.Prefix.Addr()) {
+			if rt2.Prefix.Bits() < rt.Prefix.Bits() && rt2.Prefix.Contains(rt.Prefix.Addr()) {
 				continue outer
 			}
 		}
 
+		seen[rt.Prefix] = struct{}{}
 		prefixes = append(prefixes, rt.Prefix)
 	}
 
